@@ -37,13 +37,18 @@ def quiet_fds():
     sys.stderr.flush()
     devnull = os.open(os.devnull, os.O_WRONLY)
     save2 = os.dup(2)
+    save1 = os.dup(1)
     os.dup2(devnull, 2)
+    os.dup2(devnull, 1)  # (the C library prints its "marching periods" to stdout)
     try:
         yield
     finally:
         sys.stderr.flush()
+        sys.stdout.flush()
         os.dup2(save2, 2)
+        os.dup2(save1, 1)
         os.close(save2)
+        os.close(save1)
         os.close(devnull)
 
 
@@ -73,7 +78,9 @@ def open_py_writer(cfg, chdir):
     return drf().DigitalRFWriter(
         chdir, dt, cfg["S"], cfg["F"], cfg["start"], cfg["n"], cfg["d"],
         uuid_str=cfg.get("uuid", "verif"), compression_level=cfg["comp"], checksum=bool(cfg["checksum"]),
-        is_complex=is_c, num_subchannels=cfg["nsub"], is_continuous=bool(cfg["cont"]), marching_periods=False)
+        is_complex=is_c, num_subchannels=cfg["nsub"], is_continuous=bool(cfg["cont"]),
+        # options that are documented not to matter for the recording are switched by bits of the salt
+        marching_periods=bool((cfg.get("salt", 0) >> 3) & 1))
 
 
 def py_getters(w):
